@@ -155,6 +155,12 @@ type Conn struct {
 	hdrFields      int
 	hdrRegularSeen bool
 
+	// hdrStatusSeen records that the block has produced its :status, and
+	// hdrTrailers that the block is a trailer section: the stream it is on has
+	// had its response headers already.
+	hdrStatusSeen bool
+	hdrTrailers   bool
+
 	// serverS belongs to the read loop once the handshake is over.
 	serverS Settings
 
@@ -909,7 +915,19 @@ func (c *Conn) dispatch(fr *FrameHeader) bool {
 	// would wedge the RoundTrip that is waiting to take it back.
 	defer r.release()
 
+	if fr.Type() == FrameHeaders {
+		c.hdrTrailers = r.gotHeaders
+	}
+
 	err := c.readStream(fr, r.Response)
+
+	// An informational response (1xx) is followed by another header block,
+	// which is the response proper and not a trailer section.
+	if err == nil && (fr.Type() == FrameHeaders || fr.Type() == FrameContinuation) &&
+		fr.Flags().Has(FlagEndHeaders) && r.Response.StatusCode() >= 200 {
+		r.gotHeaders = true
+	}
+
 	if err == nil {
 		if fr.Flags().Has(FlagEndStream) {
 			c.finish(r, fr.Stream(), nil)
@@ -1631,6 +1649,11 @@ func (c *Conn) readHeader(fr *FrameHeader, b []byte, res *fasthttp.Response) err
 		c.hdrRest = c.hdrRest[:0]
 		c.hdrFields = 0
 		c.hdrRegularSeen = false
+		c.hdrStatusSeen = false
+
+		if res == nil {
+			c.hdrTrailers = false
+		}
 	}
 
 	b = append(c.hdrRest, b...)
@@ -1681,6 +1704,12 @@ func (c *Conn) readHeader(fr *FrameHeader, b []byte, res *fasthttp.Response) err
 		// come before any regular field.
 		// https://httpwg.org/specs/rfc7540.html#rfc.section.8.1.2.4
 		if hf.IsPseudo() {
+			// Trailers carry no pseudo-header fields (RFC 7540 8.1.2.1).
+			if c.hdrTrailers {
+				rejected = errPseudoInTrailers
+				continue
+			}
+
 			if c.hdrRegularSeen {
 				rejected = errPseudoAfterRegular
 				continue
@@ -1690,6 +1719,13 @@ func (c *Conn) readHeader(fr *FrameHeader, b []byte, res *fasthttp.Response) err
 				rejected = fmt.Errorf("invalid response pseudo-header %q", hf.KeyBytes())
 				continue
 			}
+
+			if c.hdrStatusSeen {
+				rejected = errDuplicateStatus
+				continue
+			}
+
+			c.hdrStatusSeen = true
 
 			n, err := parseUint(hf.ValueBytes())
 			if err != nil || n < 100 || n > 999 {
@@ -1727,12 +1763,22 @@ func (c *Conn) readHeader(fr *FrameHeader, b []byte, res *fasthttp.Response) err
 		}
 	}
 
+	// A response without :status is malformed (RFC 7540 8.1.2.4). That is only
+	// known once the block is complete.
+	if rejected == nil && res != nil && fr.Flags().Has(FlagEndHeaders) &&
+		!c.hdrTrailers && !c.hdrStatusSeen && len(c.hdrRest) == 0 {
+		rejected = errMissingStatus
+	}
+
 	return rejected
 }
 
 var (
 	errPseudoAfterRegular   = errors.New("pseudo-header field after regular header field")
 	errInvalidStatus        = errors.New("invalid :status pseudo-header")
+	errDuplicateStatus      = errors.New("more than one :status pseudo-header")
+	errMissingStatus        = errors.New("response without a :status pseudo-header")
+	errPseudoInTrailers     = errors.New("pseudo-header field in trailers")
 	errUpperCaseHeader      = errors.New("header field name contains uppercase characters")
 	errConnectionSpecific   = errors.New("connection-specific header field")
 	errInvalidContentLength = errors.New("invalid content-length")
